@@ -28,6 +28,7 @@ def run(chk):
                        'Levi-Civita cross product minor x major; all three are normalised. Distinctness within a cap and the angular '
                        'coverage are numerical and not decided.')
     chk.rule('C18-R1', 'code = ((cap*T^2 + cell)*A + iaz) with A=45, T=11; it = floor(sqrt(cell)), ir = cell - it^2', 5)
+    chk.rule('C18-R5', 'integer arithmetic on the code cannot wrap: a subtraction whose operands may both be unsigned (the column is uint16) is provably non-negative', 0)
     chk.rule('C18-R2', 'per cap the major axis is a signed permutation of the unit vector (zz,yy,xx), 12 distinct permutations', 13)
     chk.rule('C18-R3', 'minor = (cos az, sin az) on the two non-dominant axes; third component = -(m_a M_a + m_b M_b)/M_k; normalised', 36)
     chk.rule('C18-R4', 'middle = minor x major (cyclic Levi-Civita pattern), normalised; returns (minor, middle, major)', 13)
@@ -40,6 +41,7 @@ def run(chk):
     # ---- R1: symbolic evaluation of the decomposition
     F = Facts()
     b = Lin.sym('code')
+    F.add_ge(b)
     env = {fn.args.args[0].arg: b}
     consts = {'EULER_ABIN': Lin.const(A), 'EULER_TBIN': Lin.const(T)}
 
@@ -95,6 +97,7 @@ def run(chk):
                   ', '.join(f'{k} = {v}' for k, v in sorted(env.items()) if k != 'code')[:300], node=first)
     if not all(roles.values()):
         return
+    _wrap_check(chk, fn, env, ev, F)
     NORM = src.module_assigns(CAT).get('EULER_NORM')
     okn = isinstance(NORM, ast.Constant) and isinstance(NORM.value, float) and abs(NORM.value - 1.0 / (1.0 - 0.5 ** 0.5) ** 0.5) < 1e-12
     chk.check(okn, 'C18-R1', CAT, '<module>', 'EULER_NORM = 1/sqrt(1 - 1/sqrt(2))', '', f'EULER_NORM = {unparse(NORM) if NORM is not None else None}', node=NORM or fn)
@@ -222,3 +225,90 @@ def _nonzero(alg, d):
             return False
         return False
     return c != 0
+
+
+def _wrap_check(chk, fn, lin_env, lin_ev, F):
+    """Numeric kinds: 'u' possibly unsigned integer (derived from the uint16 column by integer operations), 's' signed
+    integer, 'f' float, 'lit' integer literal (takes the kind of the other operand under NumPy promotion).  A subtraction
+    (or unary minus) on kind 'u' wraps around when the true result is negative, so it must be provably >= 0 (decided with the
+    floor-division facts of rule R1) or one operand must have been converted to a signed / float type first."""
+    kind = {fn.args.args[0].arg: 'u'}
+    consts = {'EULER_ABIN', 'EULER_TBIN'}
+    # re-run the Lin environment statement by statement so that each name has the Lin value it has AT the subtraction
+    lenv = {fn.args.args[0].arg: Lin.sym('code')}
+
+    def lin(e):
+        saved = dict(lin_env)
+        lin_env.clear()
+        lin_env.update(lenv)
+        try:
+            return lin_ev(e)
+        finally:
+            lin_env.clear()
+            lin_env.update(saved)
+
+    def k(e):
+        if isinstance(e, ast.Constant):
+            return 'lit' if type(e.value) is int else ('f' if isinstance(e.value, float) else 'x')
+        if isinstance(e, ast.Name):
+            if e.id in consts:
+                return 'lit'
+            return kind.get(e.id, 'x')
+        if isinstance(e, ast.UnaryOp):
+            return k(e.operand)
+        if isinstance(e, ast.Subscript):
+            return k(e.value)
+        if isinstance(e, ast.Call):
+            d = dotted(e.func)
+            if isinstance(e.func, ast.Attribute) and e.func.attr == 'astype' and e.args:
+                a = unparse(e.args[0])
+                if a.replace('np.', '') in ('int', 'int64', 'int32', 'intp', 'int16'):
+                    return 's'
+                if 'float' in a:
+                    return 'f'
+                if a.endswith('.dtype'):
+                    return k(e.args[0].value)
+                if 'uint' in a:
+                    return 'u'
+                return 'x'
+            if d in ('np.int64', 'np.int32', 'int', 'np.intp'):
+                return 's'
+            if d in ('np.uint16', 'np.uint32', 'np.uint64', 'np.uint8'):
+                return 'u'
+            if d.startswith('np.') or d.startswith('math.'):
+                return 'f'
+            if isinstance(e.func, ast.Attribute) and e.func.attr in ('reshape', 'copy', 'view'):
+                return k(e.func.value)
+            return 'x'
+        if isinstance(e, ast.BinOp):
+            a, b_ = k(e.left), k(e.right)
+            if isinstance(e.op, ast.Div) or 'f' in (a, b_):
+                return 'f'
+            if 's' in (a, b_):
+                return 's'
+            if 'u' in (a, b_):
+                return 'u'
+            if a == b_ == 'lit':
+                return 'lit'
+            return 'x'
+        return 'x'
+    n = 0
+    for s_ in fn.body:
+        for e in ast.walk(s_):
+            if isinstance(e, ast.BinOp) and isinstance(e.op, ast.Sub) and k(e.left) in ('u', 'lit') and k(e.right) in ('u', 'lit') and 'u' in (k(e.left), k(e.right)):
+                l, r = lin(e.left), lin(e.right)
+                ok = l is not None and r is not None and F.entails_ge(l - r)
+                n += 1
+                chk.check(ok, 'C18-R5', CAT, Q, f'{unparse(e)} >= 0 (unsigned operands)', f'{(l - r) if ok else ""}',
+                          f'{unparse(e)}: both operands can be unsigned integers (the eigenvector column is uint16) and the difference is not provably >= 0: '
+                          'it wraps around to a huge positive number instead of going negative', node=s_)
+        if isinstance(s_, ast.Assign) and len(s_.targets) == 1 and isinstance(s_.targets[0], ast.Name):
+            kind[s_.targets[0].id] = k(s_.value)
+            v = lin(s_.value)
+            if v is not None:
+                lenv[s_.targets[0].id] = v
+            else:
+                lenv.pop(s_.targets[0].id, None)
+        elif isinstance(s_, ast.AugAssign) and isinstance(s_.target, ast.Name):
+            kind[s_.target.id] = k(ast.BinOp(left=s_.target, op=s_.op, right=s_.value))
+            lenv.pop(s_.target.id, None)
